@@ -107,6 +107,17 @@ class Track(object):
         """
         tun = self.get_tuning()
 
+        def add_split(notes, duration):
+            # This should be the standard behaviour of add_notes: fill the
+            # bar and carry the remainder over the bar line, as often as
+            # needed.
+            while not self.add_notes(notes, duration):
+                dur = self.bars[-1].value_left()
+                self.add_notes(notes, dur)
+
+                # warning should hold note
+                duration = value.subtract(duration, dur)
+
         def add_chord(chord, duration):
             if isinstance(chord, list):
                 for c in chord:
@@ -115,19 +126,13 @@ class Track(object):
                 chord = NoteContainer().from_chord(chord)
                 if tun:
                     chord = tun.find_chord_fingering(chord, return_best_as_NoteContainer=True)
-                if not self.add_notes(chord, duration):
-                    # This should be the standard behaviour of add_notes
-                    dur = self.bars[-1].value_left()
-                    self.add_notes(chord, dur)
-
-                    # warning should hold note
-                    self.add_notes(chord, value.subtract(duration, dur))
+                add_split(chord, duration)
 
         for c in chords:
             if c is not None:
                 add_chord(c, duration)
             else:
-                self.add_notes(None, duration)
+                add_split(None, duration)
         return self
 
     def get_tuning(self):
